@@ -112,6 +112,19 @@ theorem c09_fatal_batch_ids (st : Core) (raw : Text) (es : List Text) (acc : Arr
   · intro e; subst e; exact (fatal_max_id st raw es acc lo h1 h2 hl hr).1
   · intro hne hb; exact fatal_unknown_batch st raw es acc lo hi h1 h2 hl hr hne hb
 
+/-- the three "client abandons the connection" causes named in the property, in one statement -/
+theorem c09_fatal_classes (st : Core) (raw : Text) :
+    ((firstNonWs raw ≠ some 123 ∧ firstNonWs raw ≠ some 91) → (handleBack st raw).fatal = some .unparseable) ∧
+    ((firstNonWs raw = some 123 ∧ classifyIncoming raw = .garbage) → (handleBack st raw).fatal = some .unparseable) ∧
+    (∀ r, decodeResponse raw = some r →
+        (st.mgr.requestStatus r.id = .invalid ∨ st.mgr.requestStatus r.id = .sub) →
+        (handleBack st raw).fatal = some (.notPending r.id)) ∧
+    (firstNonWs raw = some 91 → elements raw = some [] → (handleBack st raw).fatal = some (.batch .empty)) :=
+  ⟨fun h => (fatal_other_first_byte st raw h.1 h.2).1,
+   fun h => (fatal_garbage_object st raw h.1 h.2).1,
+   fun r hd hs => (fatal_unknown_id st raw r hd hs).1,
+   fun h1 h2 => (fatal_empty_array st raw h1 h2).1⟩
+
 -- non-vacuity on decoded replies (texts are exercised by the correspondence)
 example : (handleArray { cap := 1 } []).fatal = some (.batch .empty) := by decide
 
@@ -245,6 +258,25 @@ theorem c09_streams_end (st : St) (c : ChanId) (ch : Chan) (h : (dropManager st.
 example : (run repoExitOrder (init 4) (recvFailureHistory.take 10)).sendP = .done ∧
     (run repoExitOrder (init 4) (recvFailureHistory.take 10)).readP = .done ∧
     (run repoExitOrder (init 4) (recvFailureHistory.take 10)).fronts = [.inManager] := by decide
+
+/-- no stalling: after **any** history in which a background task ended with an error, the thirteen
+background steps of `shutdownSchedule` (watcher, reports, the `closed` arms, transport close) bring
+both tasks to their end — provided the transport returns from `send` and from `close`, which are
+the schedule's `sendOk` / `sendTransportClosed` steps; then `c09_all_pending_fail` applies -/
+theorem c09_shutdown_completes (o : ExitOrder) (fcap : Nat) (ops : List Op)
+    (hf : (run o (init fcap) ops).failures ≠ []) :
+    (run o (init fcap) (ops ++ shutdownSchedule)).sendP = .done ∧
+    (run o (init fcap) (ops ++ shutdownSchedule)).readP = .done := by
+  have hi := inv_run o ops _ (inv_init o fcap)
+  have hl := linv_run o ops _ (inv_init o fcap) (linv_init o fcap)
+  rw [run_append]
+  exact shutdown_completes o _ hi hl (hl.failed hf)
+
+-- non-vacuity: a receive error while a call is pending and the send task is inside the transport send
+example : (run repoExitOrder (init 4) [.frontNew true, .sendTake, .readErr .peerClosed]).failures ≠ [] := by decide
+example :
+    let s := run repoExitOrder (init 4) ([.frontNew true, .sendTake, .readErr .peerClosed] ++ shutdownSchedule)
+    s.sendP = .done ∧ s.readP = .done ∧ s.cause = some .peerClosed ∧ s.frontClosed = true := by decide
 
 /-! ### C09.5 — first cause wins -/
 
